@@ -13,6 +13,13 @@
 (* every returned value against AllowedCells / AllowedRatios - the same     *)
 (* operators the invariants of TermCache.tla use.  Steps are total; the     *)
 (* verdict names the first failing clause and the event index.              *)
+(*                                                                         *)
+(* Faults: an event with fault # "" is a look-up whose terminal query was   *)
+(* cut short by an exception (KeyboardInterrupt / termios.error raised in   *)
+(* the querying thread).  No look-up completed: the monitor moves nothing   *)
+(* but `pend` (the facts with a failed look-up and no completed one since). *)
+(* A later operation on such a fact that breaks its clause gets the verdict *)
+(* FaultFresh: the failed look-up left something behind.                    *)
 (***************************************************************************)
 EXTENDS TermCacheCore, TLC, Json, IOUtils
 
@@ -30,7 +37,7 @@ MemoKeys == {"colors", "colorshex", "colorsnohex", "name"}  \* get_fg_bg_colors(
 M0(tr) ==
   [env |-> tr.env, swap |-> FALSE, queries |-> TRUE, basis |-> <<>>,
    dyn |-> FALSE, allowed |-> {<<1, 2>>}, isSup |-> "unknown",
-   asked |-> [k \in MemoKeys |-> 0], gets |-> 0, stale |-> 0]
+   asked |-> [k \in MemoKeys |-> 0], gets |-> 0, stale |-> 0, pend |-> {}, faults |-> 0, aff |-> 0]
 
 Pair(x) == <<x[1], x[2]>>
 
@@ -48,14 +55,14 @@ Judge(s, e) ==
   ELSE IF e.op = "DisableQueries" THEN
     [m |-> [s EXCEPT !.queries = FALSE], v |-> "ok"]
   ELSE IF e.op = "GetCellSize" THEN
-    LET b == BasisAfterGet(s.basis, s.env)
+    LET b == BasisAfterLookup(s.basis, s.env, "cell" \in s.pend)
         ok == Pair(e.res) \in AllowedCells(b, s.env, s.swap, s.queries)
         exempt == ok /\ Pair(e.res) # Compute(s.env, s.swap, s.queries).cell IN
     [m |-> [s EXCEPT !.basis = b, !.gets = @ + 1, !.stale = IF exempt THEN @ + 1 ELSE @],
      v |-> IF ok THEN "ok" ELSE "CellFresh: get_cell_size() returned a value that a fresh computation would not give for the current terminal size and settings"]
   ELSE IF e.op = "GetRatio" THEN
     IF s.dyn THEN
-      LET b == BasisAfterGet(s.basis, s.env)
+      LET b == BasisAfterLookup(s.basis, s.env, "cell" \in s.pend)
           ok == \E a \in AllowedRatios(b, s.env, s.swap, s.queries) : SameRatio(Pair(e.res), a) IN
       [m |-> [s EXCEPT !.basis = b, !.gets = @ + 1],
        v |-> IF ok THEN "ok" ELSE "RatioFresh: the DYNAMIC cell ratio does not follow the terminal"]
@@ -68,7 +75,7 @@ Judge(s, e) ==
       [m |-> [s EXCEPT !.dyn = FALSE, !.allowed = {Pair(e.arg)}], v |-> "ok"]
     ELSE
       LET first == s.isSup = "unknown"
-          b == IF first \/ (~e.err /\ e.arg[1] = "FIXED") THEN BasisAfterGet(s.basis, s.env) ELSE s.basis
+          b == IF first \/ (~e.err /\ e.arg[1] = "FIXED") THEN BasisAfterLookup(s.basis, s.env, "cell" \in s.pend) ELSE s.basis
           cells == AllowedCells(b, s.env, s.swap, s.queries)
           sup == IF first THEN (IF e.err THEN "no" ELSE "yes") ELSE s.isSup
           v1 == IF first /\ e.err /\ None \notin cells
@@ -77,6 +84,10 @@ Judge(s, e) ==
                   THEN "AutoSupport: auto cell ratio accepted although the cell size is undeterminable"
                 ELSE IF ~first /\ e.err # (s.isSup = "no")
                   THEN "AutoSupport: support status changed without being reset"
+                \* the snapshot just taken (e.res, observed right after the call)
+                ELSE IF ~e.err /\ e.arg[1] = "FIXED" /\ Len(e.res) = 2
+                        /\ ~\E a \in AllowedRatios(b, s.env, s.swap, s.queries) : SameRatio(Pair(e.res), a)
+                  THEN "FixedSnapshot: FIXED did not take its snapshot from the terminal as it is"
                 ELSE "ok" IN
       [m |-> IF e.err THEN [s EXCEPT !.isSup = sup, !.basis = b]
              ELSE IF e.arg[1] = "FIXED"
@@ -99,6 +110,36 @@ Judge(s, e) ==
     [m |-> [s EXCEPT !.asked = asked2], v |-> v1]
   ELSE [m |-> s, v |-> "malformed: unknown operation"]
 
+\* the fact an operation looks up, "" if it looks nothing up in monitor state s
+Fact(s, e) ==
+  IF e.op \in {"GetColors", "GetName"} THEN e.arg[1]
+  ELSE IF e.op = "GetCellSize" THEN "cell"
+  ELSE IF e.op = "GetRatio" THEN (IF s.dyn \/ e.fault # "" THEN "cell" ELSE "")  \* (a fault: it did look the cell size up)
+  ELSE IF e.op = "SetRatio" /\ Len(e.arg) = 1
+    THEN (IF s.isSup = "unknown" \/ (~e.err /\ e.arg[1] = "FIXED") \/ e.fault # "" THEN "cell" ELSE "")
+  ELSE ""
+
+\* what a toggle discards
+Discards(s, e) ==
+  IF e.op = "EnableQueries" /\ ~s.queries THEN {"cell"} \cup MemoKeys
+  ELSE IF (e.op = "EnableSwap" /\ ~s.swap) \/ (e.op = "DisableSwap" /\ s.swap) THEN {"cell"}
+  ELSE {}
+
+JudgeF(s, e) ==
+  IF e.fault # "" THEN
+    \* the exception was raised out of the query of this call: whether it reached the caller (e.err) or
+    \* was swallowed, no look-up completed and nothing returned is a terminal fact
+    IF Fact(s, e) = "" THEN [m |-> s, v |-> "malformed: a fault in an operation that looks nothing up"]
+    ELSE [m |-> [s EXCEPT !.pend = @ \cup {Fact(s, e)}, !.faults = @ + 1], v |-> "ok"]
+  ELSE
+    LET j == Judge(s, e)
+        f == Fact(s, e)
+        aff == f # "" /\ f \in s.pend IN
+    [m |-> [j.m EXCEPT !.pend = (s.pend \ Discards(s, e)) \ {f}, !.aff = IF aff THEN @ + 1 ELSE @],
+     v |-> IF aff /\ j.v # "ok"
+             THEN "FaultFresh: a look-up that was cut short by an exception left something behind - " \o j.v
+             ELSE j.v]
+
 Init ==
   /\ tid \in 1..Len(Traces)
   /\ l = 0
@@ -109,7 +150,7 @@ Init ==
 Consume ==
   /\ l < N
   /\ l' = l + 1
-  /\ LET j == Judge(m, Ev[l + 1])
+  /\ LET j == JudgeF(m, Ev[l + 1])
          v == IF verdict # "ok" THEN verdict ELSE j.v IN
        /\ m' = j.m
        /\ verdict' = v
@@ -127,5 +168,6 @@ Spec == Init /\ [][Next]_vars
 Done == l = N + 1
 Report ==
   Done => PrintT(<<"VERDICT", ToJson([tid |-> tid, verdict |-> verdict, at |-> at, events |-> N,
-                                        gets |-> m.gets, exempt |-> m.stale])>>)
+                                        gets |-> m.gets, exempt |-> m.stale,
+                                        faults |-> m.faults, aff |-> m.aff])>>)
 =============================================================================
